@@ -311,3 +311,15 @@ func fatalf(format string, a ...interface{}) {
 	cleanupScratch()
 	os.Exit(2)
 }
+
+// transpileWith runs Transpile with a given converter (e.g. a recorder).
+func transpileWith(path string, conv transpiler.Converter) (res TResult) {
+	defer func() {
+		if r := recover(); r != nil {
+			res.Panic = fmt.Sprintf("%v\n%s", r, debug.Stack())
+		}
+	}()
+	tr := transpiler.New()
+	s, err := tr.Transpile(path, conv)
+	return TResult{Script: s, Err: err}
+}
